@@ -148,6 +148,20 @@ Theorem C06_fv_image_section_transparent :
 Proof. exact fvimage_section_transparent. Qed.
 Print Assumptions C06_fv_image_section_transparent.
 
+(* ---- the DataOffset GenSecHeader writes is where the payload starts, for EVERY payload size below
+   4 GiB: also in the branch where the section reaches 0xFFFFFF bytes and gets the 8-byte common
+   header (then DataOffset = 28, not 24).  The field kept in the node, the two bytes written at
+   common header + 16, and the position of the payload in the written bytes agree. ---- *)
+Theorem C06_dataoffset_is_payload_start : forall h g body h' nb,
+  s_gd h = Some g -> zlen (gd_guid g) = 16 -> zlen body < SZ -> gen_sec_header h body = (h', nb) ->
+  exists g', s_gd h' = Some g' /\
+    gd_dataoff g' = s_hlen h' + 20 /\
+    rd (s_hlen h' + 16) 2 nb = gd_dataoff g' /\
+    zskipn (gd_dataoff g') nb = body /\
+    (s_hlen h' = 8 <-> 16777215 <= zlen body + 24).
+Proof. exact gen_dataoff_is_payload_start. Qed.
+Print Assumptions C06_dataoffset_is_payload_start.
+
 (* ---- idempotence, at full strength ---- *)
 
 (* what Assemble wrote is an exact fixed point of Assemble: the very same node comes back (sections,
